@@ -4,7 +4,7 @@ from props.m1common import rng_for, is_err
 import sx
 
 PID = "C18"
-KERNELS = ['K_duration_ops', 'K_parse_any']   # translated from /repo on every run, tied to the model by coq/Gen/<name>_eq.v
+KERNELS = ['K_duration_ops', 'K_parse_any', 'K_ratio_duration']   # translated from /repo on every run, tied to the model by coq/Gen/<name>_eq.v
 RUNNER = "impl_m5.py"
 N = {"quick": 3000, "thorough": 100000}
 VM_CROSSCHECK = True
